@@ -25,6 +25,7 @@ open Lungo.C13
 #print axioms Lungo.C13.sort_stable
 #print axioms Lungo.C13.ties_in_insertion_order
 #print axioms Lungo.C13.sort_keeps_sorted_sublists
+#print axioms Lungo.C13.sort_unique
 #print axioms Lungo.C13.sortBySpec_spec
 #print axioms Lungo.C13.columns_int32
 #print axioms Lungo.C13.distinct_ascending
